@@ -87,7 +87,7 @@ def main():
                     first = {'obligation': rec['obligation'], 'input': rec.get('input')}
                 except Exception:
                     pass
-            out['checks'][p] = {'exit': rc, 'violations': len(viol), 'undecided': [l for l in lines if l.startswith('UNDECIDED')][:3],
+            out['checks'][p] = {'exit': rc, 'violations': len(viol), 'violations_with_input': len([l for l in viol if 'no-failing-input-found' not in l]), 'undecided': [l for l in lines if l.startswith('UNDECIDED')][:3],
                                 'first': first, 'seconds': round(time.time() - t0, 1), 'summary': o.splitlines()[-1] if o else ''}
     finally:
         import fcntl
